@@ -23,7 +23,7 @@ LEVEL = META['level']
 RULE = ('a case = one (personality, request route path, service) combination executed, or one textual path parsed; enumerated over fixed lists plus seeded variations; '
         'distinct by the tuple; non-trivial = the accept/refuse oracle and the tag-access counters were both evaluated')
 ASSUMPTIONS = ['an Unconnected Send with a zero-length route path counts as "no route path"']
-REQUIRED = ['personality:none', 'personality:simple', 'personality:single', 'personality:multi', 'personality:address-link', 'accepted', 'refused',
+REQUIRED = ['text:non-canonical-address', 'personality:none', 'personality:simple', 'personality:single', 'personality:multi', 'personality:address-link', 'accepted', 'refused',
             'request:bare', 'request:empty-route-path', 'request:equal', 'request:different', 'monitor:no-tag-access-on-refusal', 'monitor:served-correctly',
             'tcp:route-path-option', 'tcp:simple-option', 'text:route-paths', 'text:connection-paths', 'service:bundle']
 TIMEOUT = {'quick': 300, 'thorough': 1800}
@@ -239,6 +239,24 @@ def text_forms(ctx, rng):
         forms = ['/'.join('%d/%s' % (s['port'], s['link']) for s in segs), json.dumps(segs)]
         if n == 1:
             forms.append(json.dumps(segs[0]))
+        # every spelling of the same address denotes the same segments: addresses written in a non-canonical way (IPv6 with leading
+        # zeros / capitals / expanded zero runs), in the textual and in the JSON forms
+        if rng.random() < 0.5:
+            spell, canon = rng.choice([('2001:0DB8::0001', '2001:db8::1'), ('FE80::1', 'fe80::1'), ('0::1', '::1'), ('2001:db8:0:0:0:0:0:1', '2001:db8::1'), ('::FFFF:1.2.3.4', '::ffff:102:304')])
+            try:
+                import ipaddress
+                canon = str(ipaddress.ip_address(spell))
+            except Exception:
+                pass
+            k_ = rng.randrange(n)
+            alt = [dict(s) for s in segs]
+            alt[k_]['link'] = spell
+            segs = [dict(s) for s in segs]
+            segs[k_]['link'] = canon
+            forms = [json.dumps(alt)] + ([json.dumps(alt[0])] if n == 1 else [])
+            if all(':' not in str(s['link']) or True for s in alt):
+                forms.append('/'.join('%d/%s' % (s['port'], s['link']) for s in alt))
+            ctx.count('text:non-canonical-address')
         for text in forms:
             ctx.count('text:route-paths')
             ctx.case(('text', text))
@@ -280,6 +298,7 @@ def run(ctx):
     jobs.append(('tcp', 'single', [{'port': 1, 'link': 0}], ['--route-path', '1/0']))
     jobs.append(('tcp', 'address-link', [{'port': 2, 'link': '1.2.3.4'}], ['--route-path', '[{"port":2,"link":"1.2.3.4"}]']))
     jobs.append(('tcp', 'simple', False, ['--route-path', 'false']))
+    jobs.append(('tcp', 'address-link', [{'port': 3, 'link': '2001:db8::1'}], ['--route-path', '[{"port": 3, "link": "2001:0DB8::0001"}]']))     # configured in a non-canonical spelling
     for j, (how, pname, conf, extra) in enumerate(jobs):
         if j % ctx.nshards != ctx.shard:
             continue
